@@ -128,6 +128,9 @@ void h_draw_horizontal_line_c(void) { Image* self; IN_D ssize_t in_x1, in_x2, in
 void h_draw_vertical_line_c(void) { Image* self; IN_D ssize_t in_x, in_y1, in_y2, in_dash; uint32_t in_c; Image_draw_vertical_line_c(self, in_x, in_y1, in_y2, in_dash, in_c); VERIF_REACH(); }
 void h_x_h_div1(void) { ssize_t in_x, in_dash; x_h_div1(in_x, in_dash); VERIF_REACH(); }
 void h_x_v_div1(void) { ssize_t in_x, in_dash; x_v_div1(in_x, in_dash); VERIF_REACH(); }
+void h_draw_text_cell(void) { Image* self; IN_D GH(bool, tup_ok) ssize_t in_x, in_xpos, in_ypos, in_maxx; uint8_t in_ch; IN_RGBA; uint64_t in_br, in_bg, in_bb, in_ba;
+  x_pos = in_xpos; y_pos = in_ypos; max_x_pos = in_maxx;
+  Image_draw_text_cell(self, in_x, in_ch, in_r, in_g, in_b, in_a, in_br, in_bg, in_bb, in_ba); VERIF_REACH(); }
 void h_draw_text_v(void) { Image* self; IN_D GH(bool, tup_ok) ssize_t in_x, in_y; ssize_t wv, hv; int in_ptrs; IN_RGBA; uint64_t in_br, in_bg, in_bb, in_ba; const char* buf; size_t in_size;
   Image_draw_text_v(self, in_x, in_y, (in_ptrs & 1) ? &wv : 0, (in_ptrs & 2) ? &hv : 0, in_r, in_g, in_b, in_a, in_br, in_bg, in_bb, in_ba, buf, in_size); VERIF_REACH(); }
 
